@@ -265,6 +265,12 @@ class TU:
                     par = self.parent.get(nid)
                     if par is not None and par.get('name') == qual[:-2].split('::')[-1]: return n
             raise ExtractionBreak('anonymous enum in "%s" not found' % qual)
+        if '::' in qual:     # qualified name: several classes may declare an enum of the same name (Operator::op_type, Lattice::Term::op_type)
+            for nid, n in self.index.items():
+                if n.get('kind') == 'EnumDecl' and n.get('name') == qual.split('::')[-1]:
+                    q = self.qualname(n)
+                    if q == qual or q.endswith('::' + qual): return n
+            raise ExtractionBreak('enum "%s" not found' % qual)
         for nid, n in self.index.items():
             if n.get('kind') == 'EnumDecl' and n.get('name') == qual.split('::')[-1]:
                 return n
